@@ -377,6 +377,7 @@ def run_check(P, tier, seed, replay=None):
     F = []   # (case, impl_obs, why)
     D = []   # (case, impl_obs, model_obs)
     impl_only = not ok_exe
+    skipped = [0]
 
     def evaluate(cases):
         """run both sides, return list of (case, impl, model, pred_failure|None, disagree:bool)"""
@@ -385,7 +386,13 @@ def run_check(P, tier, seed, replay=None):
         out = []
         for c, i, m in zip(cases, io, mo):
             why = P.predicate(c, i)
+            if not why and m is not None:
+                # optional second predicate that may also look at what the model side printed (e.g. the
+                # verdict of an executable specification that only exists in Lean)
+                why = P.predicate2(c, i, m)
             dis = False
+            if m is not None and P.model_skips(c, m):
+                skipped[0] += 1
             if m is not None and not P.model_skips(c, m):
                 dis = P.project(c, i) != P.project(c, m)
             out.append((c, i, m, why, dis))
@@ -507,6 +514,7 @@ def run_check(P, tier, seed, replay=None):
         "samples": samples,
         "disagreements_checked": evaluations,
         "model_vs_impl_disagreements": len(D),
+        "cases_outside_model_domain": skipped[0],
         "impl_property_failures": len(F),
         "known_findings_seen": res.known,
         "input_distribution": dist,
